@@ -34,7 +34,7 @@ func (m *Machine) drawEth(t *rapid.T, g *GenOpts, a *Action) {
 	switch x.Target {
 	case ethTargetAssetsForwarder, ethTargetDelegationForwarder, ethTargetPrecompileDirect:
 		x.Mode = []int{0, 0, 0, 1, 1, 2, 3}[uniform(t, 7, "mode")]
-		x.Inner = []string{"depositLST", "depositLST", "withdrawLST", "delegate", "delegate", "undelegate"}[uniform(t, 6, "inner")]
+		x.Inner = []string{"depositLST", "depositLST", "withdrawLST", "delegate", "delegate", "undelegate", "registerToken"}[uniform(t, 7, "inner")]
 		lst := m.lstAssets()
 		x.Asset = lst[uniform(t, len(lst), "asset")]
 		x.Actor = uniform(t, m.NumActors(), "actor")
